@@ -45,7 +45,7 @@ def expSmall (s : List Char) : Bool :=
   | [] => true
   | _ :: t => ((expBody t).dropWhile (· == '0')).length ≤ 4
 
-/-- `spec.c07.holds input output keepNumbers mode table` — the property itself, evaluated with the
+/-- `spec.c07.holds input output keepNumbers mode` — the property itself, evaluated with the
     specification side only (`parseJ`, `jvEq`, lengths) on the implementation's output.
     mode 0: numbers compared by value (`jvEq`); mode 1: shape only (`jvShapeEq`; precision > 0 or
     exponents too large to evaluate).  Reply: `ok`, or the first failing clause. -/
@@ -54,27 +54,31 @@ def opHolds : Handler := fun args => do
   let o ← argChars args 1
   let keep ← argBool args 2
   let mode ← argNat args 3
-  let tbl ← argList args 4
   match parseJ i with
   | none => .ok (strBytes "invalid-input")
   | some v =>
     match parseJ o with
     | none => .ok (strBytes "invalid-output")
     | some v' =>
-      let opts : JsonOpts := { keepNumbers := keep }
-      let allow := countNum (numGrows opts (numOf (numTable tbl))) v
       let big := countNum (fun s => !expSmall s) v + countNum (fun s => !expSmall s) v' > 0
       if !(if mode == 0 && !big then jvEq v v' else jvShapeEq v v') then .ok (strBytes "value")
       else if keep && compact v != compact v' then .ok (strBytes "keepnumbers")
       else if o.length ≤ i.length then .ok (strBytes "ok")
-      else if o.length ≤ i.length + allow then .ok (strBytes "length-known")
       else .ok (strBytes "length")
 
-/-- `trig.c07.numGrows lexeme numberResult` -/
-def opTrig : Handler := fun args => do
+/-- `spec.c07.numHyp lexeme numberResult precision` — the hypotheses of the theorems on `num`
+    (`NumGrammar`, `NumDotShrinks`, `NumValue`) evaluated on one result of the real `minify.Number`.
+    Reply `ok` or the name of the first hypothesis that fails. -/
+def opNumHyp : Handler := fun args => do
   let s ← argChars args 0
   let r ← argChars args 1
-  .ok (boolBytes (numGrows {} (fun _ _ => r) s))
+  let p ← argInt args 2
+  if !isJsonNumber s then .ok (strBytes "not-a-json-number")
+  else if !isMinNumber r then .ok (strBytes "NumGrammar(grammar)")
+  else if r.length > s.length then .ok (strBytes "NumGrammar(length)")
+  else if !hasExp s && startsDot r && r.length ≥ s.length then .ok (strBytes "NumDotShrinks")
+  else if p ≤ 0 && expSmall s && expSmall r && numVal r != numVal s then .ok (strBytes "NumValue")
+  else .ok (strBytes "ok")
 
 /-- `spec.c07.isNumber lexeme` / `spec.c07.isString lexeme` -/
 def opIsNumber : Handler := fun args => do
@@ -93,7 +97,7 @@ def opCompact : Handler := fun args => do
 
 def handlers : List (String × Handler) :=
   [("model.c07.events", opEvents), ("model.c07.minify", opMinify), ("spec.c07.holds", opHolds),
-   ("trig.c07.numGrows", opTrig), ("spec.c07.isNumber", opIsNumber), ("spec.c07.isString", opIsString),
+   ("spec.c07.numHyp", opNumHyp), ("spec.c07.isNumber", opIsNumber), ("spec.c07.isString", opIsString),
    ("spec.c07.compact", opCompact)]
 
 end Verif.Driver.C07
